@@ -251,7 +251,17 @@ type Ctor struct {
 }
 
 // File is the parsed content of one contract file.
+// Global is a package-level invariant over global variables: proved at the end of the
+// package initialiser (or assumed, with a reason) and assumed on entry to every function of the package.
+type Global struct {
+	Clause  *Clause
+	Pkg     string
+	Assumed bool
+	Why     string
+}
+
 type File struct {
+	Globals []*Global
 	Pkg     string
 	Path    string
 	Funcs   []*FuncSpec
